@@ -288,8 +288,8 @@ PROPS = {
         "run_files": ["Run/CaseConn.v", "Run/CaseC09.v"],
         "imports": ["Lib.Bytes", "Codec.Desc", "Conn.Types", "Conn.Prog", "Conn.Sem1", "Run.CaseConn"],
         "case_type": "conn_case",
-        "checkers": {"BASE": "check_c04c", "MAL": "check_c04c", "C06": "check_c04c", "C01": "check_c04c", "CAN": "check_c04c"},
-        "harness": [{"bin": "conn", "env": {"VERIF_FAMILIES": "BASE,MAL,C06,C01,CAN"}}, {"bin": "codec", "families": ["DEC"], "case_type": "c09case", "imports": ["Lib.Bytes", "Codec.VarInt", "Codec.Desc", "Gen.PacketsGen", "Run.CaseC09"], "checkers": {"DEC": "check_c04_dec"}, "shard": 250}],
+        "checkers": {"BASE": "check_c04c", "MAL": "check_c04c", "C06": "check_c04c", "C01": "check_c04c", "CAN": "check_c04c", "WCAN": "check_c04c"},
+        "harness": [{"bin": "conn", "env": {"VERIF_FAMILIES": "BASE,MAL,C06,C01,CAN,WCAN"}}, {"bin": "codec", "families": ["DEC"], "case_type": "c09case", "imports": ["Lib.Bytes", "Codec.VarInt", "Codec.Desc", "Gen.PacketsGen", "Run.CaseC09"], "checkers": {"DEC": "check_c04_dec"}, "shard": 250}],
         "shard": 40,
         "quick_scale": 1, "thorough_scale": 8, "search_factor": 4,
         "ties": ["conn binary: real Connection::listen on a scripted transport/client/adapters in a paused runtime vs the byte-level model Conn.Sem2.run2 on the delivered timed segments (sends, calls, outcome, virtual ms), with no class exempted",
@@ -307,8 +307,8 @@ PROPS = {
         "run_files": ["Run/CaseConn.v"],
         "imports": ["Lib.Bytes", "Codec.Desc", "Conn.Types", "Conn.Prog", "Conn.Sem1", "Run.CaseConn"],
         "case_type": "conn_case",
-        "checkers": {"BASE": "check_c08c", "SEG": "check_c08c", "MAL": "check_c08c", "CAN": "check_c08c"},
-        "harness": [{"bin": "conn", "env": {"VERIF_FAMILIES": "BASE,SEG,MAL,CAN"}}],
+        "checkers": {"BASE": "check_c08c", "SEG": "check_c08c", "MAL": "check_c08c", "CAN": "check_c08c", "WCAN": "check_c08c"},
+        "harness": [{"bin": "conn", "env": {"VERIF_FAMILIES": "BASE,SEG,MAL,CAN,WCAN"}}],
         "shard": 40,
         "quick_scale": 1, "thorough_scale": 8, "search_factor": 4,
         "ties": ["conn binary: real Connection::listen on a scripted transport/client/adapters in a paused runtime vs the byte-level model Conn.Sem2.run2 on the delivered timed segments (sends, calls, outcome, virtual ms), with no class exempted",
